@@ -92,6 +92,30 @@ def _outside_writes(run, prog, classes):
                              f"{fq} assigns `{attr}` of a storage it holds ({held}): the configuration / state of a storage is "
                              f"changed from outside after construction, e.g. targets start to be kept for a storage that "
                              f"already holds instances without targets, so instances and targets are no longer aligned")
+    # what get_data() hands out are the storage's own containers: an explainer that appends to / extends / overwrites them
+    # puts data into the storage that never went through update()
+    from .common import explainer_classes
+    from ..paths import root as _root
+    for E in explainer_classes(prog):
+        for mname in ("explain_one", "explain_many", "explain_many_original", "update_storage"):
+            if prog.find_method(E, mname)[1] is None:
+                continue
+            try:
+                es = prog.summarise(E, mname)
+            except ir.Unsupported:
+                continue
+            for ev, ctx in walk(es.events):
+                tgt = ev.recv if isinstance(ev, ir.Mut) else (ev.cont if isinstance(ev, (ir.SubStore, ir.Del)) else None)
+                if tgt is None:
+                    continue
+                r = _root(tgt)
+                handed = r[0] == "res" and isinstance(r[2], str) and r[2].endswith(("storage.get_data", "storage")) and "get_data" in ir.show_nl(r)
+                if handed and tgt[0] in ("tget", "res") and (tgt == r or (tgt[0] == "tget" and tgt[1] == r)):
+                    fq = f"{E.name}.{mname}"
+                    run.fail("OWNER", f"{fq}:get_data", f"{es.path}:{ev.line}", fq, run.stmt_text(es.path, ev.line),
+                             f"{fq} changes a container handed out by the storage's get_data() in place "
+                             f"({run.stmt_text(es.path, ev.line)}): the storage then holds data that never arrived through "
+                             f"update() (beyond its capacity, with targets although none are kept, ...)")
     if not any(f.rule == "OWNER" for f in run.findings):
         run.ok("OWNER", "package", f"{n} assignments to storage attribute names, all by the owning object")
 
